@@ -3,6 +3,15 @@ families = correspondence families (harness `gen <fam>`) with quick-tier op coun
 monitor = number of monitor cases in the quick tier (harness `monitor <id>`)."""
 
 PROPS = {
+    "C16": {
+        "families": {"account": 12000, "wrapper": 12000},
+        "ix_monitor": 8000,
+        "assumptions": [
+            "bank keys are compared as the byte-wise order of Pubkeys (the harness maps naturals monotonically onto keys)",
+            "liability share values are >= 1 (they start at 1 and accrual is monotone: C06), used by the one-side theorem",
+            "transfer_to_new_account (slot array moved wholesale, old account disabled, second transfer refused) is covered by reading and by the table theorems of C08 only; it needs an `init` account and is not dispatched natively",
+        ],
+    },
     "C12": {
         "families": {"admin": 20000},
         "monitor": 900,
@@ -106,6 +115,12 @@ _NOTE = ("Trusted: Lean kernel; axioms propext/Classical.choice/Quot.sound only 
          "and by diffing model vs real code on generated operations. ")
 
 MANIFEST_TEXT = {
+    "C16": {
+        "text": "Machine-checked Lean 4 theorems on the position-array model: find_or_create returns the bank's existing slot or opens exactly one fresh empty slot with the bank's tag and preserves 'distinct active slots have distinct banks' (array length fixed at 16); a 9th integration position is refused; sort_balances yields keys non-increasing along the array, is a permutation and is idempotent; an accepted validate_asset_tags never lets staked and default-class positions mix; a successful balance increase never leaves >= 1 share on both sides (debt residue after a flip <= 2 ulps); can_be_closed characterisation; by decide over regenerated skeletons: the five user handlers test ACCOUNT_DISABLED before any share move and every position-changing handler sorts after its last wrapper operation. Model diffed against the real find_or_create / sort_balances / validate_asset_tags / can_be_closed (12k arrays/run incl. panics); the instruction-level monitor re-checks uniqueness, one-sidedness and ordering on the real account bytes after every real instruction.",
+        "design_ref": "DESIGN.md §4 C16",
+        "note": _NOTE,
+        "technique": "Lean 4 proof: list invariants (Pairwise/Perm of a stable merge sort, index-wise uniqueness) + wrapper step theorem + decide over source-generated skeletons; correspondence check; real-dispatch structural monitor",
+    },
     "C12": {
         "text": "Machine-checked Lean 4 theorems on the configuration model: on a frozen bank configure_bank changes only the two limits and keeps every flag (nobody can lift the freeze through it), interest-only does nothing, limits-only changes only the two limits; unfrozen: interest-only changes only interest_rate_config, limits-only only the three limits; Bank::configure changes only bits 2,3,5 of the 64-bit flag word and the emissions flag update replaces exactly bits 0,1 for EVERY 64-bit word (bit-level theorems over all flag words, not samples) and refuses any other bit; over EVERY history of deleverage withdrawals the exact whole-dollar sum since the last window reset never exceeds a non-zero daily limit (induction over arbitrary histories). Model diffed against the real Bank::configure / override_emissions_flag / update_withdrawn_equity (20k cases/run); the C12 monitor checks byte-level frames of the real instructions per role through real dispatch.",
         "design_ref": "DESIGN.md §4 C12",
